@@ -1,6 +1,9 @@
 package main
 
-import "strings"
+import (
+	"strconv"
+	"strings"
+)
 
 func libSuite(prop string) Suite {
 	return Suite{
@@ -60,7 +63,32 @@ func hostileClassify(op Op, impl, model string) bool {
 			return true
 		}
 	}
+	// "... or a well-formed object": a fetch that answers with a series says how many values
+	// it has by its bounds and step; another number of values is neither an error nor a
+	// well-formed answer (whoever adds such series up indexes past the end)
+	if strings.HasPrefix(op.Line, "fetch ") && illFormedSeries(impl) {
+		return true
+	}
 	return false
+}
+
+// illFormedSeries: "ok <from> <until> <step> <v,v,...>" with (until-from)/step != number of values
+func illFormedSeries(obs string) bool {
+	f := strings.Fields(stripAlloc(obs))
+	if len(f) != 5 || f[0] != "ok" {
+		return false
+	}
+	from, e1 := strconv.ParseInt(f[1], 10, 64)
+	until, e2 := strconv.ParseInt(f[2], 10, 64)
+	step, e3 := strconv.ParseInt(f[3], 10, 64)
+	if e1 != nil || e2 != nil || e3 != nil || step <= 0 || until < from {
+		return false
+	}
+	n := 0
+	if f[4] != "-" {
+		n = len(strings.Split(f[4], ","))
+	}
+	return int64(n) != (until-from)/step
 }
 
 func hostileCodecSuite() Suite {
